@@ -265,6 +265,34 @@ def run(chk):
             chk.ok("C19.boundary", f, f"{q}: boundaries longer than 70 are refused")
         else:
             chk.violation("C19.boundary", f, "if len(boundary) > 70: raise ValueError", "", f"{q}: over-long boundaries are accepted")
+    # ---- b64: in base64 mode input reaches the wire only through the carry buffer (first in, first out) ------------------------------
+    pw = repo.cls(MP, "MultipartPayloadWriter")
+    nb64 = 0
+    for m in pw.methods.values():
+        params = {a.arg for a in m.node.args.args} - {"self"}
+        for c in prog.calls_in(m.node):
+            if norm.raw(c.func) not in ("base64.b64encode", "b64encode"):
+                continue
+            nb64 += 1
+            arg = norm.subst(c.args[0], c)
+            if isinstance(arg, ast.Name):  # element of a tuple assignment `a, b = (x, y)`
+                for a in ast.walk(m.node):
+                    if isinstance(a, ast.Assign) and isinstance(a.targets[0], ast.Tuple) and isinstance(a.value, ast.Tuple) and len(a.targets[0].elts) == len(a.value.elts):
+                        for t, v in zip(a.targets[0].elts, a.value.elts):
+                            if isinstance(t, ast.Name) and t.id == arg.id:
+                                arg = norm.subst(v, a)
+            names = {x.id for x in ast.walk(arg) if isinstance(x, ast.Name)}
+            from_buf = "_encoding_buffer" in norm.raw(arg) or "buf" in names
+            direct = names & params
+            empty_carry = PC.has_lit(PC.pc(c), [("buf", False), ("self._encoding_buffer", False), ("len(buf)", False), ("len(self._encoding_buffer)", False)], True) is not None
+            if from_buf and not direct:
+                chk.ok("C19.b64", c, f"{m.name}(): `{K.short(c, 50)}` encodes bytes taken from the carry buffer")
+            elif direct and empty_carry:
+                chk.ok("C19.b64", c, f"{m.name}(): input is encoded directly only while the carry buffer is empty")
+            else:
+                chk.violation("C19.b64", c, K.short(c), "bytes taken from the carry buffer (or direct only when it is empty)",
+                              f"{m.name}(): input bytes are base64-encoded and written without passing through the carry buffer: bytes held back from an earlier write (1-2 bytes of an incomplete triplet) are overtaken, the part's content is permuted")
+    chk.expect_count("C19.b64", nb64, 2, "base64 encodings in the part writer")
     # ---- scan: the delimiter search covers the seam between the previous and the new chunk ----------------------
     scan(chk, repo)
     # ---- headers (shared with C04) ------------------------------------------------------------------------------------------------
